@@ -101,6 +101,8 @@ def gen_cases(tier, seed):
                 args.append(o)
         if r.random() < 0.1:
             args += ["--backup", r.choice(["numbered", "auto"])]
+        if r.random() < 0.08:
+            args.append(r.choice(["-v", "-vv", "-vvv"]))
         args += ([files[0]["p"], "dst"] if single else ["-r", "src", "dst"])
         yield {"xdev": r.random() < 0.15, "fs": "tmpfs" if r.random() < 0.3 else "ext4", "spec": [{"p": "src", "k": "d"}] + files, "pre": pre,
                "args": args, "single": single, "prior": prior, "driver": driver, "block": bname, "bsv": bsv,
